@@ -51,7 +51,7 @@ func init() {
 			Old: "\tdefer wb.start()\n\tdefer dq.Subscribe(wb.handleQueueSubscription)\n\tdefer wb.queues.Register(dq)\n", New: "\tdefer dq.Subscribe(wb.handleQueueSubscription)\n\tdefer wb.start()\n\tdefer wb.queues.Register(dq)\n",
 			Why: "re-introduces D25: the subscription becomes active after the start-up pass"},
 		mutant{ID: "C02-concurrency-wraps", Prop: "C02", File: "config.go", Expect: "R02.3", Quick: true,
-			Old: "\tif uint64(concurrency) > math.MaxUint32 {\n\t\treturn math.MaxUint32\n\t}\n\n", New: "",
+			Old: "\tif uint64(concurrency) > math.MaxUint32 {\n\t\treturn math.MaxUint32\n\t}\n\n", New: "\t_ = math.MaxUint32\n\n",
 			Why: "re-introduces D26: the int → uint32 conversion of the limit is unbounded"},
 	)
 }
